@@ -659,8 +659,12 @@ func (fc *FnCtx) unop(in *ssa.UnOp, st *State) Val {
 	switch in.Op {
 	case token.MUL:
 		if g, ok := in.X.(*ssa.Global); ok {
-			if fn := fc.eng.constFuncGlobal(fc, g); fn != nil {
-				return &FuncRef{fn}
+			// a `var:NAME` contract on the variable takes precedence over resolving it to its initialiser
+			hasVarContract := g.Pkg != nil && fc.eng.cs.ByKey[g.Pkg.Pkg.Path()+"::var:"+g.Name()] != nil
+			if !hasVarContract {
+				if fn := fc.eng.constFuncGlobal(fc, g); fn != nil {
+					return &FuncRef{fn}
+				}
 			}
 		}
 		if al, ok := in.X.(*ssa.Alloc); ok {
